@@ -87,6 +87,47 @@ def run(prop, tier, seed):
             recs.append({"k": "ob", "fam": fam, "key": list(key), "part": part, "deg": k, "dev30": d30, "dev13": d13})
             worst30[(fam, key)] = max(worst30.get((fam, key), 0), d30)
             worst13[(fam, key)] = max(worst13.get((fam, key), 0), d13)
+    # 2b. the scheme constructors of src/quadrature.py hand out exactly the tabulated rule, whatever was requested before
+    #     (requests are repeated in a second, interleaved order: a constructor must not depend on the call history)
+    q = importlib.import_module("src.quadrature")
+    CONS = {"log": q.log_quadrature_scheme, "loglog": q.log_log_quadrature_scheme, "sqrt": q.sqrt_quadrature_scheme, "sqrtinv": q.sqrtinv_quadrature_scheme}
+    import numpy as np
+    keys_by_fam = {f: [k for (ff, k) in sorted(rules) if ff == f and rules[(ff, k)]["returns"]] for f in CONS}
+    order1 = [(f, k) for f in ("log", "loglog", "sqrt", "sqrtinv") for k in keys_by_fam[f]]
+    order2 = [(f, k) for k in sorted({k for f in CONS for k in keys_by_fam[f]}) for f in ("sqrtinv", "sqrt", "loglog", "log") if k in keys_by_fam[f]]
+    for which, order in (("first-pass", order1), ("interleaved-pass", order2)):
+        for fam, key in order:
+            f = getattr(qr, FUNCS[fam])
+            xs, ws = f(*key)
+            try:
+                sc = CONS[fam](*key)
+                same = bool(np.array_equal(np.asarray(sc.points), np.asarray(xs, float)) and np.array_equal(np.asarray(sc.weights), np.asarray(ws, float)))
+            except Exception:
+                same = False
+            if not same:
+                ctx.violation("constructor-mismatch:%s:%s" % (fam, ",".join(map(str, key))),
+                              "%s_quadrature_scheme%r does not return the tabulated rule (%s)" % (fam, key, which), {"family": fam, "key": list(key), "pass": which})
+    # Gauss-type constructors: requested by polynomial degree, exact against the stated weight up to that degree
+    gcons = [("gsqrtinv", q.gauss_sqrtinv_quadrature_scheme, [n for n in range(1, 24, 2)]),
+             ("gx", q.gauss_x_quadrature_scheme, [n for n in range(1, 22, 2)]),
+             ("glog", q.gauss_log_quadrature_scheme, [n for n in range(0, 16)])]
+    ncons = 0
+    for fam, cons, degs in gcons:
+        for npoly in degs:
+            if (fam, ((npoly + 1) // 2,)) not in rules or not rules[(fam, ((npoly + 1) // 2,))]["returns"]:
+                continue        # the constructor can only be asked for degrees whose key is tabulated
+            try:
+                sc = cons(npoly)
+                xs = [mp.mpf(float(x)) for x in sc.points]
+                ws = [mp.mpf(float(w)) for w in sc.weights]
+                worst_e = max(rl.rel_error(fam, "w", k, xs, ws) for k in range(npoly + 1))
+                okc = worst_e <= mp.mpf("1e-13")
+            except Exception as ex:
+                okc, worst_e = False, repr(ex)[:80]
+            ncons += 1
+            if not okc:
+                ctx.violation("constructor-degree:%s:%d" % (fam, npoly), "gauss-type scheme constructor of family %s requested for degree %d is not exact up to that degree (%s)"
+                              % (fam, npoly, worst_e), {"family": fam, "N_poly": npoly})
     # 3. judge
     work = tempfile.mkdtemp(prefix="rules.", dir=tlc._scratch())
     path = os.path.join(work, "trace.json")
@@ -132,6 +173,7 @@ def run(prop, tier, seed):
         "rule": "one record per obligation <<family, key, part, degree>> of Rules.tla over the registry extracted from the source (all %d rules), "
                 "plus one shape record per rule; the space is finite and enumerated completely" % len(rules),
         "samples": [recs[0], recs[1], recs[-1]], "exhaustive": True, "registry": reg, "judge_tlc": jres.stats(),
+        "scheme_constructor_requests": len(order1) + len(order2) + ncons,
         "worst_literal_dev_millionths": max(worst30.values()) if worst30 else None,
         "worst_double_dev_millionths": max(worst13.values()) if worst13 else None, "binding_selftest": st_self,
     }
